@@ -14,6 +14,18 @@ from sqlsym import DB, Evaluator, Rel, Row, vint, vstr
 from sqltables import col
 
 
+def selection_subquery(body):
+    """the text of the parenthesised sub-query `from ( select ... from logs ... ) logs` (balanced parentheses)"""
+    for m in re.finditer(r"from\s*\(\s*(?=select\b)", body, re.I):
+        i, depth = m.end(), 1
+        while i < len(body) and depth:
+            depth += {"(": 1, ")": -1}.get(body[i], 0)
+            i += 1
+        if depth == 0 and re.match(r"\s*logs\b", body[i:], re.I) and re.search(r"from\s+logs\b", body[m.end():i - 1], re.I):
+            return body[m.end():i - 1].strip()
+    return None
+
+
 def run(repo, tier, out):
     K = 3 if tier == "quick" else 4
     h = Harness("C34_log_blocks")
@@ -22,12 +34,12 @@ def run(repo, tier, out):
         h.inconclusive.append("create_block / create_blocks not found in the migrations")
         return write(out, [h])
     body = fns["create_block"]["body"]
-    m = re.search(r"from\s*\(\s*(select\s+\*\s+from\s+logs\s+where.*?limit\s+\w+)\s*\)\s*logs", body, re.S | re.I)
+    m = selection_subquery(body)
     if not m or "max(id)" not in body.replace(" ", "").lower().replace("selectmax(id)", "max(id)") or not re.search(r"insert\s+into\s+logs_blocks\s*\(\s*ledger\s*,\s*previous\s*,\s*from_id\s*,\s*to_id", body, re.I) \
             or not re.search(r"values\s*\(\s*_ledger\s*,\s*previous_block\.block_id\s*,\s*previous_block\.max_log_id\s*,\s*max_log_id", body, re.I):
         h.inconclusive.append("create_block no longer has the shape this check interprets (selection sub-query; insert of (previous max id, max id of the selection))")
         return write(out, [h])
-    sel = m.group(1)
+    sel = m
     h.encoded = [f"create_block (migration {fns['create_block']['migration']}): {' '.join(sel.split())}", "create_blocks: loop until an empty selection"]
     # symbolic logs table; visible1[i] = committed when the first run happens
     t, cons = sqltables.bucket(K)
